@@ -76,6 +76,152 @@ theorem tuc3_true_sound (pos12 : Iso3 K) (m : Manifold3 K) (thr dsq : K)
   refine ⟨?_, rfl, rfl, h2, tucLoop3_sound sq pos12 m.n1 dsq hn m.points h⟩
   intro he; simp [he] at h1
 
+private theorem tucLoop2_sound (pos12 : Iso2 K) (n1 : V2 K) (dsq : K)
+    (hn : letI := fieldNum K sq; n1.dot n1 = 1) (pts : List (Contact2 K)) :
+    letI := fieldNum K sq
+    (tucLoop2 pos12 n1 dsq pts).1 = true →
+      List.Forall₂ (Updated2 sq pos12 n1 dsq) pts (tucLoop2 pos12 n1 dsq pts).2 := by
+  induction pts with
+  | nil => intro _; exact List.Forall₂.nil
+  | cons pt rest ih =>
+    intro h
+    simp only [tucLoop2] at h ⊢
+    split_ifs at h with h1 h2
+    rw [if_neg h1, if_neg h2]
+    refine List.Forall₂.cons ?_ (ih h)
+    push Not at h1 h2
+    refine ⟨rfl, ?_, h2, h1⟩
+    exact proj_identity2 sq _ _ _ hn
+
+/-- **C14 (a), 2-D.** Same statement as `tuc3_true_sound` for the `dim2` variant. -/
+theorem tuc2_true_sound (pos12 : Iso2 K) (m : Manifold2 K) (thr dsq : K)
+    (hn : letI := fieldNum K sq; m.n1.dot m.n1 = 1)
+    (h : letI := fieldNum K sq; (tuc2 pos12 m thr dsq).1 = true) :
+    letI := fieldNum K sq
+    let m' := (tuc2 pos12 m thr dsq).2
+    m.points ≠ [] ∧ m'.n1 = m.n1 ∧ m'.n2 = m.n2 ∧ thr ≤ -(m.n1.dot (pos12.rot m.n2)) ∧
+      List.Forall₂ (Updated2 sq pos12 m.n1 dsq) m.points m'.points := by
+  simp only [tuc2] at h ⊢
+  split_ifs at h with h1 h2
+  rw [if_neg h1, if_neg h2]
+  push Not at h2
+  refine ⟨?_, rfl, rfl, h2, tucLoop2_sound sq pos12 m.n1 dsq hn m.points h⟩
+  intro he; simp [he] at h1
+
+/-- **the fast path never fires on an empty manifold, and leaves `local_p2`, the normals and the number of
+contacts alone whatever it returns** (so a caller that recomputes after `false` only ever sees `local_p1`/`dist`
+of a prefix of the contacts changed). -/
+theorem tuc3_frame (pos12 : Iso3 K) (m : Manifold3 K) (thr dsq : K) :
+    letI := fieldNum K sq
+    let r := tuc3 pos12 m thr dsq
+    r.2.n1 = m.n1 ∧ r.2.n2 = m.n2 ∧ r.2.points.map (·.p2) = m.points.map (·.p2) ∧
+      (m.points = [] → r.1 = false) := by
+  have hloop : ∀ pts : List (Contact3 K),
+      (@tucLoop3 K (fieldNum K sq) pos12 m.n1 dsq pts).2.map (·.p2) = pts.map (·.p2) := by
+    intro pts
+    induction pts with
+    | nil => rfl
+    | cons pt rest ih =>
+      simp only [tucLoop3]
+      split_ifs <;> simp [ih]
+  simp only [tuc3]
+  split_ifs with h1 h2
+  · simp
+  · refine ⟨rfl, rfl, rfl, ?_⟩
+    intro he; simp [he] at h1
+  · refine ⟨rfl, rfl, hloop _, ?_⟩
+    intro he; simp [he] at h1
+
+
+/-- non-vacuity of `tuc3_true_sound`: a unit normal, one contact, a small translation step: accepted. -/
+example : (tuc3 (K := ℚ) ⟨0, 0, 0, 1, ⟨1/1000, 0, 1⟩⟩ ⟨[⟨⟨0, 0, 0⟩, ⟨0, 0, 0⟩, 1⟩], ⟨0, 0, 1⟩, ⟨0, 0, -1⟩⟩
+    (99984769515 / 100000000000) (1 / 1000000)).1 = true ∧ (⟨0, 0, 1⟩ : V3 ℚ).dot ⟨0, 0, 1⟩ = 1 := by
+  norm_num [tuc3, tucLoop3, Iso3.rot, Iso3.rotQ, Iso3.qv, Iso3.act, V3.dot, V3.sub, V3.add, V3.smul, V3.cross,
+    V3.normSq, two]
+
+/-- … and a step that is too large is rejected (the theorem's hypothesis is not always true). -/
+example : (tuc3 (K := ℚ) ⟨0, 0, 0, 1, ⟨1/100, 0, 1⟩⟩ ⟨[⟨⟨0, 0, 0⟩, ⟨0, 0, 0⟩, 1⟩], ⟨0, 0, 1⟩, ⟨0, 0, -1⟩⟩
+    (99984769515 / 100000000000) (1 / 1000000)).1 = false := by
+  norm_num [tuc3, tucLoop3, Iso3.rot, Iso3.rotQ, Iso3.qv, Iso3.act, V3.dot, V3.sub, V3.add, V3.smul, V3.cross,
+    V3.normSq, two]
+
+/-- non-vacuity of `tuc2_true_sound` -/
+example : (tuc2 (K := ℚ) ⟨1, 0, ⟨1/1000, 1⟩⟩ ⟨[⟨⟨0, 0⟩, ⟨0, 0⟩, 1⟩], ⟨0, 1⟩, ⟨0, -1⟩⟩
+    (99984769515 / 100000000000) (1 / 1000000)).1 = true ∧ (⟨0, 1⟩ : V2 ℚ).dot ⟨0, 1⟩ = 1 := by
+  norm_num [tuc2, tucLoop2, Iso2.rot, Iso2.act, V2.dot, V2.sub, V2.add, V2.smul, V2.normSq]
+
+/-! ## `find_deepest_contact` -/
+
+private theorem deepestGo_spec (all : List K) :
+    ∀ (ds pre : List K) (best : Nat) (bestD : K), all = pre ++ ds → all[best]? = some bestD →
+    (∀ (j : Nat) (w : K), j < pre.length → all[j]? = some w → bestD ≤ w) →
+    (∀ (j : Nat) (w : K), j < best → all[j]? = some w → bestD < w) →
+    letI := fieldNum K sq
+    ∃ v, all[deepestGo best bestD pre.length ds]? = some v ∧
+      (∀ (j : Nat) (w : K), all[j]? = some w → v ≤ w) ∧
+      (∀ (j : Nat) (w : K), j < deepestGo best bestD pre.length ds → all[j]? = some w → v < w) := by
+  intro ds
+  induction ds with
+  | nil =>
+    intro pre best bestD hall hb h1 h2
+    simp only [deepestGo]
+    refine ⟨bestD, hb, ?_, h2⟩
+    intro j w hw
+    have hj : j < pre.length := by
+      rcases Nat.lt_or_ge j all.length with h | h
+      · simpa [hall] using h
+      · rw [List.getElem?_eq_none h] at hw; cases hw
+    exact h1 j w hj hw
+  | cons d ds ih =>
+    intro pre best bestD hall hb h1 h2
+    have hd : all[pre.length]? = some d := by simp [hall]
+    have hall' : all = (pre ++ [d]) ++ ds := by simp [hall]
+    have hlen' : (pre ++ [d]).length = pre.length + 1 := by simp
+    simp only [deepestGo]
+    by_cases hlt : d < bestD
+    · rw [if_pos hlt]
+      have := ih (pre ++ [d]) pre.length d hall' hd
+        (by
+          intro j w hjp hw
+          rw [hlen'] at hjp
+          rcases Nat.lt_or_ge j pre.length with h | h
+          · exact le_of_lt (lt_of_lt_of_le hlt (h1 j w h hw))
+          · have : j = pre.length := by omega
+            subst this; rw [hd] at hw; cases hw; exact le_rfl)
+        (by
+          intro j w hjp hw
+          exact lt_of_lt_of_le hlt (h1 j w hjp hw))
+      rw [hlen'] at this
+      exact this
+    · rw [if_neg hlt]
+      push Not at hlt
+      have := ih (pre ++ [d]) best bestD hall' hb
+        (by
+          intro j w hjp hw
+          rw [hlen'] at hjp
+          rcases Nat.lt_or_ge j pre.length with h | h
+          · exact h1 j w h hw
+          · have : j = pre.length := by omega
+            subst this; rw [hd] at hw; cases hw; exact hlt)
+        h2
+      rw [hlen'] at this
+      exact this
+
+/-- **`find_deepest_contact`**: `None` exactly on an empty manifold; otherwise the index of a contact of
+minimal `dist`, and the *first* such contact (every earlier contact is strictly shallower). -/
+theorem deepest_spec (ds : List K) :
+    letI := fieldNum K sq
+    match deepest ds with
+    | none => ds = []
+    | some i => ∃ v, ds[i]? = some v ∧ (∀ (j : Nat) (w : K), ds[j]? = some w → v ≤ w) ∧
+        (∀ (j : Nat) (w : K), j < i → ds[j]? = some w → v < w) := by
+  cases ds with
+  | nil => simp [deepest]
+  | cons d rest =>
+    simp only [deepest]
+    exact deepestGo_spec sq (d :: rest) (d :: rest) [] 0 d rfl (by simp)
+      (by intro j w h; simp at h) (by intro j w h; omega)
+
 /-! ## (b) the closed-form generators -/
 
 /-- The property's per-contact clause at pose `pos12`: `dist = (pos12·local_p2 − local_p1)·local_n1`, and the
@@ -364,6 +510,123 @@ theorem halfspaceDispatch3_good (feat : V3 K → List (V3 K)) (hsFirst : Bool) (
     rw [halfspacePfm3_flip]
     exact good_swap3 sq pos12 hq _ _ _
       (halfspacePfm3_spec sq feat (@Iso3.inverse K (fieldNum K sq) pos12) n br pred (unitQ_inverse sq pos12 hq) hn).1
+
+/-! ## the two concrete shape functions used by the correspondence: cuboid projection and support face -/
+
+/-- `copysign` at the lawful instance (no signed zero in a field: `copysign a 0 = |a|`) -/
+@[reducible] def fieldCopysign (K : Type) [Field K] [LinearOrder K] [IsStrictOrderedRing K] : HasCopysign K :=
+  ⟨fun a b => if b < 0 then -|a| else |a|⟩
+
+/-- every vertex of `Cuboid::support_face` is a point of the cuboid (so the `local_p2` witnesses of
+half-space/cuboid contacts lie in the cuboid rounded by the border radius) -/
+theorem cuboidSupportFace3_mem (he dir : V3 K) (hx : 0 ≤ he.x) (hy : 0 ≤ he.y) (hz : 0 ≤ he.z) :
+    letI := fieldNum K sq
+    letI := fieldCopysign K
+    ∀ v ∈ cuboidSupportFace3 he dir, (Cuboid3.mk he).Mem v := by
+  intro v hv
+  simp only [cuboidSupportFace3, HasCopysign.copysign, abs_one] at hv
+  split_ifs at hv <;>
+    (simp only [List.mem_cons, List.not_mem_nil, or_false] at hv
+     rcases hv with rfl | rfl | rfl | rfl <;>
+       simp only [Cuboid3.Mem] <;> refine ⟨⟨?_, ?_⟩, ⟨?_, ?_⟩, ?_, ?_⟩ <;> linarith)
+
+private theorem shift_zero_iff (h p : K) (hh : 0 ≤ h) :
+    (max (-h - p) 0 - max (p - h) 0 = 0) ↔ (-h ≤ p ∧ p ≤ h) := by
+  constructor
+  · intro e
+    rcases le_total (-h - p) 0 with h1 | h1 <;> rcases le_total (p - h) 0 with h2 | h2 <;>
+      simp only [max_eq_right, max_eq_left, h1, h2] at e <;> constructor <;> linarith
+  · rintro ⟨h1, h2⟩
+    rw [max_eq_right (by linarith), max_eq_right (by linarith)]; ring
+
+private theorem shift_mem (h p : K) (hh : 0 ≤ h) :
+    -h ≤ p + (max (-h - p) 0 - max (p - h) 0) ∧ p + (max (-h - p) 0 - max (p - h) 0) ≤ h := by
+  rcases le_total (-h - p) 0 with h1 | h1 <;> rcases le_total (p - h) 0 with h2 | h2 <;>
+    simp only [max_eq_right, max_eq_left, h1, h2] <;> constructor <;> linarith
+
+private theorem projStep_cases (a b : K) (i : Nat) (st : ProjSt K) :
+    letI := fieldNum K sq
+    projStep a b i st = st ∨ projStep a b i st = ⟨b, false, i⟩ ∨ projStep a b i st = ⟨a, true, i⟩ := by
+  simp only [projStep]; split_ifs <;> simp
+
+private theorem projStep_first (a b f : K) (h : -f < a ∨ -f < b) :
+    letI := fieldNum K sq
+    projStep a b 0 ⟨-f, false, 0⟩ = ⟨b, false, 0⟩ ∨ projStep a b 0 ⟨-f, false, 0⟩ = ⟨a, true, 0⟩ := by
+  simp only [projStep]
+  split_ifs with h1 h2 h3
+  · left; rfl
+  · exfalso; rcases h with h | h <;> linarith
+  · right; rfl
+  · exfalso; rcases h with h | h <;> linarith
+
+private theorem projFinal_cases (a0 b0 a1 b1 a2 b2 f : K) (h : -f < a0 ∨ -f < b0) :
+    letI := fieldNum K sq
+    let st3 := projStep a2 b2 2 (projStep a1 b1 1 (projStep a0 b0 0 ⟨-f, false, 0⟩))
+    st3 = ⟨b0, false, 0⟩ ∨ st3 = ⟨a0, true, 0⟩ ∨ st3 = ⟨b1, false, 1⟩ ∨
+        st3 = ⟨a1, true, 1⟩ ∨ st3 = ⟨b2, false, 2⟩ ∨ st3 = ⟨a2, true, 2⟩ := by
+  intro st3
+  have h1 := projStep_first sq a0 b0 f h
+  have h2 := projStep_cases sq a1 b1 1 (@projStep K (fieldNum K sq) a0 b0 0 ⟨-f, false, 0⟩)
+  have h3 := projStep_cases sq a2 b2 2 (@projStep K (fieldNum K sq) a1 b1 1 (@projStep K (fieldNum K sq) a0 b0 0 ⟨-f, false, 0⟩))
+  simp only [st3]
+  rcases h3 with h3 | h3 | h3
+  · rw [h3]
+    rcases h2 with h2 | h2 | h2
+    · rw [h2]; rcases h1 with h1 | h1 <;> simp [h1]
+    · simp [h2]
+    · simp [h2]
+  · simp [h3]
+  · simp [h3]
+
+/-- **`Cuboid::project_local_point_and_get_feature` (the `proj` of cuboid/ball contacts)**: the returned point
+is a point of the cuboid, and `is_inside` is exactly membership of the query point.  (`he.x < f64::MAX` is what
+makes the `best = -MAX` sentinel of the inside branch work.) -/
+theorem cuboidProject3_mem (he pt : V3 K) (hx : 0 ≤ he.x) (hy : 0 ≤ he.y) (hz : 0 ≤ he.z)
+    (hmax : letI := fieldNum K sq; he.x < fmax) :
+    letI := fieldNum K sq
+    (Cuboid3.mk he).Mem (cuboidProject3 he pt).2 ∧
+    ((cuboidProject3 he pt).1 = true ↔ (Cuboid3.mk he).Mem pt) := by
+  have ex := shift_zero_iff he.x pt.x hx
+  have ey := shift_zero_iff he.y pt.y hy
+  have ez := shift_zero_iff he.z pt.z hz
+  have mx := shift_mem he.x pt.x hx
+  have my := shift_mem he.y pt.y hy
+  have mz := shift_mem he.z pt.z hz
+  simp only [cuboidProject3, V3.sup, V3.sub, V3.neg, V3.add, V3.zero, neq, fieldNum_nmax, Cuboid3.Mem]
+  by_cases hin : (-he.x ≤ pt.x ∧ pt.x ≤ he.x) ∧ (-he.y ≤ pt.y ∧ pt.y ≤ he.y) ∧ (-he.z ≤ pt.z ∧ pt.z ≤ he.z)
+  · obtain ⟨⟨i1, i2⟩, ⟨i3, i4⟩, i5, i6⟩ := hin
+    have zx := ex.mpr ⟨i1, i2⟩
+    have zy := ey.mpr ⟨i3, i4⟩
+    have zz := ez.mpr ⟨i5, i6⟩
+    simp only [zx, zy, zz, le_refl, decide_true, Bool.and_self, Bool.not_true, Bool.false_eq_true, if_false]
+    refine ⟨?_, by simp [i1, i2, i3, i4, i5, i6]⟩
+    rcases projFinal_cases sq (-he.x - pt.x) (pt.x - he.x) (-he.y - pt.y) (pt.y - he.y) (-he.z - pt.z) (pt.z - he.z)
+      (@fmax K (fieldNum K sq)) (by rcases le_total pt.x 0 with h | h; · left; linarith
+                                    · right; linarith) with h | h | h | h | h | h <;>
+      simp only [h, V3.set] <;> refine ⟨⟨?_, ?_⟩, ⟨?_, ?_⟩, ?_, ?_⟩ <;> norm_num <;> try linarith
+  · have hne : ¬ ((max (-he.x - pt.x) 0 - max (pt.x - he.x) 0 = 0) ∧ (max (-he.y - pt.y) 0 - max (pt.y - he.y) 0 = 0)
+        ∧ (max (-he.z - pt.z) 0 - max (pt.z - he.z) 0 = 0)) := by
+      rw [ex, ey, ez]; exact hin
+    have hdec : (decide (max (-he.x - pt.x) 0 - max (pt.x - he.x) 0 ≤ 0) && decide (0 ≤ max (-he.x - pt.x) 0 - max (pt.x - he.x) 0) &&
+        (decide (max (-he.y - pt.y) 0 - max (pt.y - he.y) 0 ≤ 0) && decide (0 ≤ max (-he.y - pt.y) 0 - max (pt.y - he.y) 0)) &&
+        (decide (max (-he.z - pt.z) 0 - max (pt.z - he.z) 0 ≤ 0) && decide (0 ≤ max (-he.z - pt.z) 0 - max (pt.z - he.z) 0))) = false := by
+      by_contra hc
+      simp only [Bool.not_eq_false, Bool.and_eq_true, decide_eq_true_eq] at hc
+      exact hne ⟨le_antisymm hc.1.1.1 hc.1.1.2, le_antisymm hc.1.2.1 hc.1.2.2, le_antisymm hc.2.1 hc.2.2⟩
+    simp only [hdec, Bool.not_false, if_true]
+    exact ⟨⟨mx, my, mz⟩, by simpa using hin⟩
+
+/-- non-vacuity of the generator theorems' hypotheses: a rational unit quaternion (a rotation by ≈ 73.7° about
+`x`), a rational unit half-space normal, an empty initial manifold.  (`LawfulSqrt` holds for `Real.sqrt` on `ℝ`;
+it cannot hold on `ℚ`.) -/
+example : UnitQ (⟨3/5, 0, 0, 4/5, ⟨1, 2, 3⟩⟩ : Iso3 ℚ) ∧ (⟨3/5, 4/5, 0⟩ : V3 ℚ).dot ⟨3/5, 4/5, 0⟩ = 1 ∧
+    (Manifold3.new : Manifold3 ℚ).points.length ≤ 1 := by
+  norm_num [UnitQ, V3.dot, Manifold3.new]
+
+set_option exponentiation.threshold 2000 in
+/-- non-vacuity of `cuboidProject3_mem` / `cuboidSupportFace3_mem` -/
+example : (0 : ℚ) ≤ 1 ∧ (1 : ℚ) < fmax := by
+  norm_num [fmax, Num.ofRat]
 
 /-! ## the workspace bookkeeping of `contact_manifolds_composite_shape_shape` -/
 
